@@ -78,7 +78,7 @@ func (t *Target) BuildRedirectURL(requestURL *url.URL) {
 		Scheme:   t.URL.Scheme,
 		Host:     t.URL.Host,
 		Path:     t.URL.Path,
-		RawPath:  t.URL.Path,
+		RawPath:  t.URL.EscapedPath(),
 		RawQuery: t.URL.RawQuery,
 	}
 	// treat case of $path not separated with a / from host
